@@ -97,6 +97,44 @@ def h_fixed(ctx):
     ctx.check_eq('sizeof', con.sizeof(), size)
 
 
+# gABI data representation (Figure 4-2 / 4-3): name -> (bytes in ELF32, bytes in ELF64, signed)
+ELF_TYPES = {'Elf_byte': (1, 1, False), 'Elf_half': (2, 2, False), 'Elf_word': (4, 4, False), 'Elf_word64': (8, 8, False), 'Elf_addr': (4, 8, False),
+             'Elf_offset': (4, 8, False), 'Elf_sword': (4, 4, True), 'Elf_xword': (4, 8, False), 'Elf_sxword': (4, 8, True)}
+DWARF_TYPES = {'Dwarf_uint8': (1, False), 'Dwarf_uint16': (2, False), 'Dwarf_uint32': (4, False), 'Dwarf_uint64': (8, False),
+               'Dwarf_int8': (1, True), 'Dwarf_int16': (2, True), 'Dwarf_int32': (4, True), 'Dwarf_int64': (8, True)}
+
+
+def h_struct_types(ctx):
+    """the integer types the ELF and DWARF struct factories derive from class / byte order / format / address size"""
+    cfg = ctx.cfg
+    little = cfg['little']
+    if cfg['family'] == 'elf':
+        S = ctx.lib('elf.structs')
+        st = S.ELFStructs(little_endian=little, elfclass=cfg['elfclass'])
+        st.create_basic_structs()
+        size32, size64, signed = ELF_TYPES[cfg['type']]
+        size = size32 if cfg['elfclass'] == 32 else size64
+    else:
+        S = ctx.lib('dwarf.structs')
+        st = S.DWARFStructs(little_endian=little, dwarf_format=cfg['fmt'], address_size=cfg['addr'])
+        if cfg['type'] == 'Dwarf_offset':
+            size, signed = cfg['fmt'] // 8, False
+        elif cfg['type'] == 'Dwarf_length':
+            size, signed = cfg['fmt'] // 8, False
+        elif cfg['type'] == 'Dwarf_target_addr':
+            size, signed = cfg['addr'], False
+        else:
+            size, signed = DWARF_TYPES[cfg['type']]
+    con = getattr(st, cfg['type'])('x')
+    bs = ctx.bytes('b', size + 1)
+    stream = ctx.stream(bs)
+    v = _parse(ctx, con, stream)
+    ctx.outcome('ok')
+    want = enc.dec_sint(bs[:size], little) if signed else enc.dec_uint(bs[:size], little)
+    ctx.check_eq('%s/value' % cfg['type'], v, want)
+    ctx.check_eq('%s/consumed' % cfg['type'], stream.tell(), size)
+
+
 # ---------------------------------------------------------------- H16.4 strings
 def _ref_cstring(ctx, bs, start):
     """(found, end) with forking: first NUL at or after start"""
@@ -281,6 +319,13 @@ HARNESSES = [
       expect=('ok', 'parse_error'),
       desc='every {U,S}{B,L}Int{8,16,32,64} macro: value formula, consumption, short input',
       bounds={'all': 'all values; input lengths 0, size-1, size, size+1'}),
+    H('h16_3_struct_types', h_struct_types,
+      lambda tier: [dict(family='elf', elfclass=c, little=l, type=t) for c in (32, 64) for l in (True, False) for t in sorted(ELF_TYPES)] +
+                   [dict(family='dwarf', fmt=f, addr=a, little=l, type=t) for f in (32, 64) for a in (4, 8) for l in (True, False)
+                    for t in sorted(DWARF_TYPES) + ['Dwarf_offset', 'Dwarf_length', 'Dwarf_target_addr'] if (f, a) in ((32, 8), (64, 4)) or t.startswith('Dwarf_t') or t in ('Dwarf_offset', 'Dwarf_length')],
+      expect=('ok',),
+      desc='every integer type of ELFStructs (per class and byte order: Elf_byte .. Elf_sxword, width and signedness per the gABI data representation) and of DWARFStructs '
+           '(per format, address size and byte order) on symbolic bytes: value and exact consumption'),
     H('h16_4_cstring_stream', h_cstring_stream,
       lambda tier: [dict(n=n, start=0) for n in _cstr_lens(tier)] + [dict(n=n, start=s, use_pos=u) for n in (70, 130) for s in (1, 5, 64) for u in (True, False)],
       expect=('ok', 'no-terminator'),
